@@ -45,6 +45,16 @@ def c07_jobs(ctx, focus=()):
             t = search.cont_task(obj=r.choice(objs), minmax=r.choice(["min", "max"]), seed=seed, dim=r.choice([2, 3]))
             cfg = {"max_cycles": r.choice([2, 4]), "fitness_error": None}
             jobs.append(({"opt": nm, "cfg": cfg, "task": t}, {"opt": nm, "cfg": cfg, "task": t, "pre_draws": r.randint(1, 50)}))
+    # "in the same or in different processes": two FRESH interpreters with different string-hash seeds (hash-ordered iteration over labels, dict / set order ...),
+    # on tasks whose objective works on the decoded solution (string-labelled permutation, as in the library's TSP example) and on ordinary ones
+    names = search.all_names()
+    pick = [n for n in ("VirusColonySearchOptimization", "ParticleSwarmOptimization", "GreyWolfOptimization") if n in names] + r.sample(names, 3 if ctx.quick else 20)
+    for nm in pick:
+        tasks = [{"vars": [("permstr", 7)], "obj": "decoded-tour", "minmax": "min", "seed": r.choice([0, 42, 7])},
+                 search.cont_task(obj="sphere", seed=r.choice([0, 42, 7]))]
+        for t in tasks:
+            cfg = {"max_cycles": 3, "fitness_error": None}
+            jobs.append(({"opt": nm, "cfg": cfg, "task": t, "hashseed": 1, "decode": True}, {"opt": nm, "cfg": cfg, "task": t, "hashseed": 2, "decode": True}))
     return jobs
 
 
@@ -58,8 +68,11 @@ def c07_decide(ctx, pairs, obs):
         if not (oa["ok"] and ob["ok"]):
             continue                      # crashes are C06's business
         d = same_result(oa, ob)
+        if not d and oa.get("decoded_best") != ob.get("decoded_best"):
+            d = f"the decoded best solution differs: {oa.get('decoded_best')} vs {ob.get('decoded_best')}"
         if d:
-            ctx.violation(f"seeded-runs-differ:{ja['opt']}", f"{ja['opt']}: two runs with seed {ja['task']['seed']} differ: {d}", {"kind": "pair", "a": ja, "b": jb})
+            how = " (two interpreters, PYTHONHASHSEED 1 and 2)" if "hashseed" in ja else ""
+            ctx.violation(f"seeded-runs-differ:{ja['opt']}", f"{ja['opt']}: two runs with seed {ja['task']['seed']} differ{how}: {d}", {"kind": "pair", "a": ja, "b": jb})
     return n
 
 
